@@ -813,11 +813,26 @@ func (fx *Fx) evalCallee(c *ssa.Call, fr *Frame, idx int, depth int) (Rat, bool)
 		return Rat{}, false
 	}
 	nfr := &Frame{Fn: g, Parent: fr, Call: c, Depth: frameDepth(fr)}
-	var res *Rat
+	var rets []*ssa.Return
 	for _, ret := range returnsOf(g) {
-		if isFailureReturn(ret) || idx >= len(ret.Results) {
-			continue
+		if !isFailureReturn(ret) && idx < len(ret.Results) {
+			rets = append(rets, ret)
 		}
+	}
+	if len(rets) == 0 {
+		return Rat{}, false
+	}
+	// several successful returns (early return style): which one is taken is a path
+	// choice like a phi's, enumerated by the caller through a pseudo block
+	if len(rets) > 1 {
+		pb := fxRetBlock(g, len(rets))
+		fx.phis[pb] = true
+		if i, ok := fx.choice[pb]; ok && i < len(rets) {
+			return fx.eval(rets[i].Results[idx], nfr, depth+1), true
+		}
+	}
+	var res *Rat
+	for _, ret := range rets {
 		r := fx.eval(ret.Results[idx], nfr, depth+1)
 		if res == nil {
 			res = &r
@@ -825,10 +840,21 @@ func (fx *Fx) evalCallee(c *ssa.Call, fr *Frame, idx int, depth int) (Rat, bool)
 			return Rat{}, false
 		}
 	}
-	if res == nil {
-		return Rat{}, false
-	}
 	return *res, true
+}
+
+var fxRetBlocks = map[*ssa.Function]*ssa.BasicBlock{}
+
+// fxRetBlock: a pseudo block standing for "which successful return of g is
+// taken"; it has one (nil) predecessor per return so that pathCombos
+// enumerates the choices exactly like the edges of a phi.
+func fxRetBlock(g *ssa.Function, n int) *ssa.BasicBlock {
+	if b, ok := fxRetBlocks[g]; ok && len(b.Preds) == n {
+		return b
+	}
+	b := &ssa.BasicBlock{Index: -1, Comment: "returns of " + g.String(), Preds: make([]*ssa.BasicBlock, n)}
+	fxRetBlocks[g] = b
+	return b
 }
 
 func (fx *Fx) evalCall(x *ssa.Call, fr *Frame, depth int) Rat {
